@@ -5,9 +5,11 @@ cd "$(dirname "$0")"
 export GOFLAGS=-mod=mod GOPROXY=off GOSUMDB=off GOTOOLCHAIN=local CGO_ENABLED=0
 mkdir -p bin coq/gen coq/cases evidence replay
 (cd tools/goextract && go build -o ../../bin/goextract .)
-./bin/goextract /repo coq/gen
+REPO="${VERIF_REPO:-/repo}"
+./bin/goextract "$REPO" coq/gen
 (cd coq && coq_makefile -f _CoqProject -o Makefile >/dev/null 2>&1 && timeout 3000 make -k -j16 >/dev/null 2>&1 || true)
-cp /repo/go.sum harness/go.sum
+cp "$REPO/go.sum" harness/go.sum
 [ -f harness/go.sum.extra ] && cat harness/go.sum.extra >> harness/go.sum
+sed -i "s#^replace github.com/charmbracelet/bubbletea => .*#replace github.com/charmbracelet/bubbletea => $REPO#" harness/go.mod
 (cd harness && go build -tags verif -o ../bin/harness .)
 echo setup done
